@@ -103,6 +103,11 @@ void gen_payload(uint64_t seed, size_t n, int flavour, std::vector<uint8_t>& out
   auto nx = [&]() { s = mix64(s + 0x9E3779B97F4A7C15ull); return s; };
   if (flavour == 0) { while (out.size() < n) { uint64_t v = nx(); for (int i = 0; i < 8 && out.size() < n; i++) out.push_back((uint8_t)(v >> (8 * i))); } return; }
   if (flavour == 1) { while (out.size() < n) { uint64_t v = nx(); out.push_back((v >> 40) % 16 == 0 ? (uint8_t)((v >> 8) % 33 == 32 ? 0x7f : (v >> 8) % 33) : (uint8_t)(0x20 + v % 95)); } return; }   // printable ASCII with the odd control character (tab, newline, NUL, DEL)
+  if (flavour == 3 && n >= 4 && (seed & 1)) {   // mostly ASCII with one stray byte: what a word-at-a-time scanner chews through
+    while (out.size() < n) out.push_back((uint8_t)(0x20 + nx() % 95));
+    uint64_t v = nx(); size_t at = (size_t)(v % n); out[at] = (uint8_t)((v >> 32) % 2 ? 0xC3 : (0x80 | ((v >> 40) & 0x3f))); if ((v >> 33) % 2 && at + 9 < n) out[at + 9] = 0xA9;
+    return;
+  }
   // utf8: whole scalars while they fit, pad with ascii
   while (out.size() < n) {
     size_t room = n - out.size(); uint64_t v = nx(); unsigned k = (unsigned)(v % 4) + 1; if (k > room) k = (unsigned)room;
